@@ -399,7 +399,28 @@ def case_choices(ctx, inp):
         ctx.branch("multi-level-tree")
 
 
-CASES = {"samplemap": case_samplemap, "choicesmap": case_choicesmap, "samplereduce": case_samplereduce,
+def case_args(ctx, inp):
+    """Argument checks the docstrings promise: negative k (sample), prob outside [0, 1] (random_sample)."""
+    from dask.bag import random as br
+    b = mk_bag([[1, 2], [3]])
+    try:
+        br.sample(b, -1)
+        ctx.fail("sample(b, -1) did not raise ValueError")
+    except ValueError:
+        ctx.branch("args:negative-k")
+    for prob in (-0.1, 1.5):
+        try:
+            b.random_sample(prob, 0)
+            ctx.fail(f"random_sample({prob}) did not raise ValueError")
+        except ValueError:
+            ctx.branch("args:prob-out-of-range")
+    for prob, want in ((0.0, []), (1.0, [1, 2, 3])):
+        got = list(b.random_sample(prob, inp["seed"]).compute(scheduler="sync"))
+        if got != want:
+            ctx.fail(f"random_sample({prob}) is not {'nothing' if not want else 'everything'}", observed=got, expected=want)
+
+
+CASES = {"args": case_args, "samplemap": case_samplemap, "choicesmap": case_choicesmap, "samplereduce": case_samplereduce,
          "choicesreduce": case_choicesreduce, "tree": case_tree, "randomsample": case_randomsample,
          "sample": case_sample, "choices": case_choices}
 
@@ -477,6 +498,18 @@ def generate(ctx):
                                "seed": rng.choice([0, rng.getrandbits(30), rng.getrandbits(30), rng.getrandbits(4)]),
                                "by_part": rng.random() < 0.3, "instance": rng.random() < 0.15,
                                "processes": ctx.thorough() and rng.random() < 0.02}
+    yield "args", {"seed": rng.getrandbits(20)}
+    if ctx.thorough():
+        # exhaustive small space: every split of a small population with duplicates into <= 3 partitions, every k, split_every
+        for pop in ([0, 0, 1], [2, 2, 2, 2], [0, 1, 1, 2, 0]):
+            n = len(pop)
+            for c1 in range(n + 1):
+                for c2 in range(c1, n + 1):
+                    parts = [pop[:c1], pop[c1:c2], pop[c2:]]
+                    for k in range(0, n + 2):
+                        for se in (None, 2):
+                            yield "sample", {"parts": parts, "k": k, "se": se, "seed": rng.getrandbits(30)}
+                            yield "choices", {"parts": parts, "k": k, "se": se, "seed": rng.getrandbits(30)}
     yield "sample", {"parts": [[0], [1], [2]], "k": 4, "se": None, "seed": 0}
     # duplicates with k beyond the number of distinct values (a sampler keyed by VALUE collapses them)
     yield "sample", {"parts": [[7, 7, 7], [7, 7]], "k": 4, "se": None, "seed": 1}
